@@ -69,6 +69,7 @@ def run(ctx):
                               # the other supported standards, and the template whitespace options of the command line (the support
                               # templates are rendered under them like any other): the primitives must come out the same
                               ("cpp20", "cpp", ["--language-standard", "c++20"]), ("cpp17pmr", "cpp", ["--language-standard", "c++17-pmr"]),
+                              ("cpp14_little", "cpp", ["--target-endianness", "little"]), ("cpp17_big", "cpp", ["--language-standard", "c++17", "--target-endianness", "big"]),
                               ("c_little_trim", "c", ["--target-endianness", "little", "--trim-blocks"]),
                               ("c_any_trim_lstrip", "c", ["--trim-blocks", "--lstrip-blocks"]),
                               ("c_big_lstrip", "c", ["--target-endianness", "big", "--lstrip-blocks"]),
